@@ -13,7 +13,7 @@ def nfun(b):
     return len(b['knots']) - b['order'] - (b['periodic'] + 1)
 
 
-def gen_obj(rng, pardim=None, dim=None, rational=None, kinds=None, pmax=None, nint_max=None):
+def gen_obj(rng, pardim=None, dim=None, rational=None, kinds=None, pmax=None, nint_max=None, big_periodic=False):
     pardim = pardim or rng.choice([1, 1, 2, 2, 3])
     pmax = pmax or {1: 6, 2: 4, 3: 3}[pardim]
     nint_max = nint_max if nint_max is not None else {1: 5, 2: 3, 3: 2}[pardim]
@@ -21,8 +21,12 @@ def gen_obj(rng, pardim=None, dim=None, rational=None, kinds=None, pmax=None, ni
     for _ in range(pardim):
         kind = rng.choice(kinds or ['open', 'open', 'open', 'periodic', 'nonopen'])
         while True:
-            b = G.gen_basis(rng, kind=kind, pmax=pmax, nint_max=nint_max)
+            b = G.gen_basis(rng, kind=kind, pmax=pmax, nint_max=nint_max + (3 if big_periodic and kind == 'periodic' else 0))
             if b['order'] >= 2 and nfun(b) >= 1:
+                # big_periodic: periodic directions with at least order+continuity functions (the range in which the
+                # library's periodic algorithms are defined; the small ones are covered by recorded findings)
+                if big_periodic and b['periodic'] >= 0 and nfun(b) < b['order'] + b['periodic']:
+                    continue
                 break
         bases.append(b)
     dim = dim or rng.choice([1, 2, 2, 3, 3])
